@@ -76,6 +76,11 @@ type sgWorld struct {
 	impl  *sgImpl
 	conns []*sgConn
 	subs  []*sgSub
+	// a second object of the same type in the same service: its signal has the same action
+	// identifier, its events travel on the same connections
+	impl2 *sgImpl
+	obj2  uint32
+	osubs []*sgSub
 }
 
 var sgw *sgWorld
@@ -88,7 +93,12 @@ func sgNewWorld() (*sgWorld, string) {
 		return nil, "setup-error:" + err.Error()
 	}
 	w.srv = srv
-	if _, err := srv.NewService("PingPong", pong.PingPongObject(w.impl)); err != nil {
+	svc, err := srv.NewService("PingPong", pong.PingPongObject(w.impl))
+	if err != nil {
+		return nil, "setup-error:" + err.Error()
+	}
+	w.impl2 = &sgImpl{}
+	if w.obj2, err = svc.Add(pong.PingPongObject(w.impl2)); err != nil {
 		return nil, "setup-error:" + err.Error()
 	}
 	return w, "ok"
@@ -161,12 +171,18 @@ func sgDecode(p []byte) string {
 	return "?" + hx(p)
 }
 
-func (w *sgWorld) subscribe(k int) *sgSub {
+func (w *sgWorld) subscribe(k int) *sgSub { return w.subscribeTo(k, 1) }
+
+func (w *sgWorld) subscribeTo(k int, obj uint32) *sgSub {
 	s := &sgSub{acked: make(chan struct{}), cdone: make(chan struct{}), conn: k}
-	w.subs = append(w.subs, s)
+	if obj == 1 {
+		w.subs = append(w.subs, s)
+	} else {
+		w.osubs = append(w.osubs, s)
+	}
 	go func() {
 		// every subscriber gets its own proxy from the connection's Cache, as an application would
-		proxy, err := w.conns[k].cache.Proxy("PingPong", 1)
+		proxy, err := w.conns[k].cache.Proxy("PingPong", obj)
 		if err != nil {
 			s.err = err
 			close(s.acked)
@@ -332,6 +348,46 @@ func execSg(op string) func(a []string) string {
 				return "error:" + err.Error()
 			}
 			return "ok"
+		case "osub":
+			// a subscriber of the other object's signal, on a connection that is not held
+			s := w.subscribeTo(n(0), w.obj2)
+			if !sgWait(s.acked, 3*time.Second) {
+				return "stuck-subscribe"
+			}
+			if s.err != nil {
+				return "error:" + s.err.Error()
+			}
+			return fmt.Sprintf("acked %d", len(w.osubs)-1)
+		case "ocancel":
+			s := w.osubs[n(0)]
+			s.stable()
+			done := make(chan struct{})
+			go func() { s.cancel(); close(done) }()
+			if !sgWait(done, 3*time.Second) {
+				return "stuck-cancel"
+			}
+			if !s.closedSoon() {
+				return "channel-not-closed"
+			}
+			w.barriers()
+			return "done"
+		case "oemit":
+			done := make(chan error, 1)
+			go func() { done <- w.impl2.h.SignalPong(a[0]) }()
+			select {
+			case <-done:
+				w.barriers()
+				return "ok"
+			case <-time.After(3 * time.Second):
+				return "emit-blocked"
+			}
+		case "ogot":
+			got, closed := w.osubs[n(0)].stable()
+			st := "open"
+			if closed {
+				st = "closed"
+			}
+			return fmt.Sprintf("[%s] %s", got, st)
 		case "got":
 			if !sgWait(w.subs[n(0)].acked, time.Millisecond) {
 				return "unacked" // SubscribeID has not returned: the caller has no channel to read yet
@@ -534,7 +590,7 @@ func sgStorm(a []string) string {
 }
 
 func init() {
-	for _, op := range []string{"reset", "conn", "hold", "release", "sub", "cancel", "emit", "call", "got"} {
+	for _, op := range []string{"reset", "conn", "hold", "release", "sub", "cancel", "emit", "call", "got", "osub", "ocancel", "oemit", "ogot"} {
 		executors["sg."+op] = execSg(op)
 	}
 	executors["sg.burstcancel"] = func(a []string) string {
@@ -575,6 +631,7 @@ func runC13(r *Rand, tier string, o *Out) {
 			pendingCancel    bool
 		}
 		var subs []*sub
+		var osubs []bool // subscribers of the other object: cancelled?
 		held := make([]bool, nconn)
 		waiting := make([]int, nconn) // operations waiting for the lock of that connection's client
 		steps := 8 + r.Intn(18)
@@ -612,10 +669,35 @@ func runC13(r *Rand, tier string, o *Out) {
 					}
 					o.Count("op:cancel")
 				}
-			case c < 75:
+			case c < 66:
 				emitN++
 				o.Do("P", fmt.Sprintf("sg.emit %d", emitN), true)
 				o.Count("op:emit")
+			case c < 75:
+				// the other object of the service: same signal identifier, same connections
+				anyHeld := false
+				for _, h := range held {
+					anyHeld = anyHeld || h
+				}
+				switch d := r.Intn(10); {
+				case d < 3 && !held[k] && waiting[k] == 0 && len(osubs) < 4:
+					o.Do("P", fmt.Sprintf("sg.osub %d", k), true)
+					osubs = append(osubs, false)
+					o.Count("op:other-object-subscribe")
+				case d < 4 && !anyHeld:
+					for j, c := range osubs {
+						if !c {
+							o.Do("P", fmt.Sprintf("sg.ocancel %d", j), true)
+							osubs[j] = true
+							o.Count("op:other-object-cancel")
+							break
+						}
+					}
+				default:
+					emitN++
+					o.Do("P", fmt.Sprintf("sg.oemit %d", emitN), true)
+					o.Count("op:other-object-emit")
+				}
 			case c < 82:
 				if !held[k] {
 					o.Do("P", fmt.Sprintf("sg.call %d", k), true)
@@ -654,6 +736,9 @@ func runC13(r *Rand, tier string, o *Out) {
 		o.Do("P", fmt.Sprintf("sg.emit %d", emitN), true)
 		for j := range subs {
 			o.Do("P", fmt.Sprintf("sg.got %d", j), true)
+		}
+		for j := range osubs {
+			o.Do("P", fmt.Sprintf("sg.ogot %d", j), true)
 		}
 	}
 	// the witnesses of the two repaired defects
